@@ -539,7 +539,7 @@ Lemma pfd_num : forall ld i r G doc acc, is_num i = true ->
                 | Some x => more <- pfd ld r G x false ;; Ok (PInt (num_val i) :: more)
                 | None => Err "index-out-of-range"
                 end
-    | _ => Err "not-an-array"
+    | _ => more <- pfd ld r G doc true ;; Ok (PInt (num_val i) :: more)
     end
   else Err "parse-int".
 Proof. intros. cbn [pfd]. rewrite H. reflexivity. Qed.
@@ -567,7 +567,7 @@ Proof.
   destruct (is_num t) eqn:Hn.
   - rewrite !pfd_num by exact Hn.
     destruct (Z.leb (num_val t) max_int32); [|reflexivity].
-    destruct doc as [| | | | |l|]; try reflexivity.
+    destruct doc as [| | | | |l|]; try (rewrite IH; reflexivity).
     destruct (nth_error l (Z.to_nat (num_val t))); [|reflexivity]. rewrite IH. reflexivity.
   - rewrite !pfd_term by exact Hn. reflexivity.
 Qed.
@@ -801,7 +801,7 @@ Proof. intros Ag G t _. reflexivity. Qed.
 (* The path the (faithful) document-side resolver returns is the path under which
    the document states the field, and that fact is one of the document's facts —
    provided nothing the walk uses below a node was defined or changed by a
-   type-scoped context of an ancestor (ok_along).  Since fix 8c11b39 the resolver
+   type-scoped context of an ancestor (ok_along).  Since fix 7a3eec3 the resolver
    continues in the selected member of an array, so no condition on the members is
    needed.  That every array is addressed with its index (D31) and that a one-member
    array is addressed without one are part of `doc_field ... = Ok _`. *)
